@@ -79,6 +79,9 @@ class ArithmeticCrossover(VariationalOperator):
             else:
                 new_genomes[i] = genomes[i]
                 new_genomes[i + 1] = genomes[i + 1]
+        # A convex combination can exceed its operands by an ulp; keep the offspring inside the box.
+        bounds = population.problem.bounds
+        new_genomes = np.clip(new_genomes, bounds[:, 0], bounds[:, 1])
         population_copy.update_genome(new_genomes)
         if self.evaluate_fitness:
             population_copy.evaluate()
